@@ -92,6 +92,9 @@ pub struct Scn {
     pub duration_ms: u64,
     pub conns: Vec<Conn>,
     pub faults: Vec<PF>,
+    /// clients do not wait for the tracker to come up: they connect the instant a listener exists
+    #[serde(default)]
+    pub early: bool,
     /// expiry probe: (max_peer_age, torrent_cleaning_interval) in seconds; two scripted connections work torrent 7 and
     /// its scrape counts are judged against deadline windows (the reference-tracker check of the other torrents is off)
     #[serde(default)]
@@ -369,7 +372,15 @@ fn client_main(idx: usize, scn: Arc<Scn>, col: Arc<Mutex<Collected>>) {
             _ => {}
         }
         if stream.is_none() {
-            match tcp::connect(tcp_src, pick) {
+            let mut conn = tcp::connect(tcp_src, pick);
+            let mut tries = 0;
+            while conn.is_none() && scn.early && engine::now() == 0 && tries < 400 {
+                // no listener yet: a real client's SYN would be retried
+                engine::yield_now();
+                tries += 1;
+                conn = tcp::connect(tcp_src, pick);
+            }
+            match conn {
                 Some(s) => {
                     if !c.write_caps.is_empty() {
                         tcp::set_write_caps(s.id(), c.write_caps.iter().map(|x| (*x).max(1) as usize).collect());
@@ -605,6 +616,10 @@ fn sim_root(scn: Arc<Scn>, col: Arc<Mutex<Collected>>) {
             PF::SpawnFail { thread } => plan.fail_spawn.push(thread.clone()),
         }
     }
+    if scn.early {
+        // a slow start (think of a large access-list file): the thread running run() stalls for 3 ms at one of its first seam calls
+        plan.stall_at.push(("tracker-run".into(), 1 + scn.sched_seed % 10, 3_000_000));
+    }
     fault::set_plan(plan);
     tcp::set_pipe_caps(1 << 20, scn.s2c_cap.max(16) as usize);
     let col2 = col.clone();
@@ -613,7 +628,9 @@ fn sim_root(scn: Arc<Scn>, col: Arc<Mutex<Collected>>) {
         let t = engine::now();
         col2.lock().unwrap().run_returned = Some((t, r.map_err(|e| format!("{:#}", e))));
     });
-    thread::sleep(Duration::from_millis(5));
+    if !scn.early {
+        thread::sleep(Duration::from_millis(5));
+    }
     let mut hs = Vec::new();
     for i in 0..scn.conns.len() {
         let (s, c) = (scn.clone(), col.clone());
@@ -917,6 +934,7 @@ impl Harness for HttpSys {
             duration_ms: if c19 { 40_000 } else if steady { 30_000 } else if let Some((a, i)) = probe { (2 * a as u64 + i + 9) * 1000 } else { r.range(8_000, 30_000) },
             conns,
             faults,
+            early: !c19 && r.chance(if prop == "C11" { 300 } else { 100 }),
             probe,
             drop_priv: r.chance(300),
         }
